@@ -17,7 +17,7 @@ from vlib.run import HarnessError, Result
 
 LEVEL = "exploration"
 RULE = (
-    "a script = owner-loop end state {running, stopped-not-closed, closed} + 1..4 bursts of 1..200 concurrent calls, each "
+    "a script = either 1..6 slow coroutine calls (ending on cancellation at once / after clean-up by re-raising, raising, returning) in flight when the owner's thread is force-stopped, or owner-loop end state {running, stopped-not-closed, closed} + 1..4 bursts of 1..200 concurrent calls, each "
     "call = (where the proxy attribute was looked up {at call time, earlier on the main loop, earlier on the owner loop}, method kind in {coroutine returning a value, coroutine raising an Exception / a BaseException that is not an Exception / CancelledError, plain returning None, plain returning a value, "
     "plain raising, non-callable attribute}, caller in {owner loop, main-thread loop, second loop thread}, argument). "
     "Non-trivial = at least one call crossed threads; distinct by script. Oracles are timing-insensitive (thread identity, "
@@ -390,12 +390,125 @@ async def _ident():
     return threading.get_ident()
 
 
+class SlowTarget:
+    """Coroutine methods that are still running when the owner's thread is stopped; on cancellation they need a few more
+    loop iterations (clean-up) before they end by re-raising, raising something else, or returning."""
+
+    def __init__(self):
+        self.started = set()
+        self.ended = set()
+
+    async def _body(self, arg, how):
+        self.started.add(arg)
+        try:
+            await asyncio.sleep(3600)
+        except asyncio.CancelledError:
+            if how != "plain":
+                for _ in range(3):
+                    await asyncio.sleep(0.002)  # clean-up that needs the loop to keep running
+            if how == "raise":
+                raise Boom(arg)
+            if how == "return":
+                return ("value", arg)
+            raise
+        finally:
+            self.ended.add(arg)
+
+    async def slow_plain(self, arg):
+        return await self._body(arg, "plain")
+
+    async def slow_clean(self, arg):
+        return await self._body(arg, "clean")
+
+    async def slow_raise(self, arg):
+        return await self._body(arg, "raise")
+
+    async def slow_return(self, arg):
+        return await self._body(arg, "return")
+
+
+async def run_stop_script(plan, r: Result):
+    """Calls in flight when the owner's thread is force-stopped: every caller must get an outcome (cancellation, the
+    exception raised during clean-up, or the value) - none may be left waiting once the owner's loop is closed."""
+    from bellows.thread import EventLoopThread, ThreadsafeProxy
+
+    target = SlowTarget()
+    second = EventLoopThread()
+    await second.start()
+    owner = EventLoopThread()
+    await owner.start()
+    owner_loop = owner.loop
+    proxy = ThreadsafeProxy(target, owner_loop)
+    done_evt = owner.thread_complete
+    out = {}
+    gate = {"stop": None}
+
+    async def drive(calls):
+        futs = []
+        for cid, kind in calls:
+            futs.append((cid, kind, asyncio.ensure_future(getattr(proxy, kind)(cid))))
+        # wait until the owner has been stopped and its loop closed (signalled from the main loop)
+        while gate["stop"] is None:
+            await asyncio.sleep(0.005)
+        for _ in range(20):
+            await asyncio.sleep(0.005)
+        for cid, kind, f in futs:
+            if not f.done():
+                out[cid] = ("pending", kind)
+                f.cancel()
+            elif f.cancelled():
+                out[cid] = ("cancelled", kind)
+            elif f.exception() is not None:
+                out[cid] = (type(f.exception()).__name__, kind)
+            else:
+                out[cid] = ("result", kind, f.result())
+
+    try:
+        by = {"main": [], "second": []}
+        for cid, (kind, caller) in enumerate(plan["calls"]):
+            by[caller].append((cid, kind))
+        jobs = [asyncio.ensure_future(drive(by["main"]))]
+        if by["second"]:
+            jobs.append(second.run_coroutine_threadsafe(drive(by["second"])))
+        t0 = time.monotonic()
+        while len(target.started) < len(plan["calls"]):
+            if time.monotonic() - t0 > 8:
+                raise asyncio.TimeoutError()
+            await asyncio.sleep(0.005)
+        owner.force_stop()
+        try:
+            await asyncio.wait_for(asyncio.shield(done_evt), 10)
+        except asyncio.TimeoutError:
+            raise
+        except BaseException:
+            pass
+        if not owner_loop.is_closed():
+            raise asyncio.TimeoutError()
+        gate["stop"] = True
+        await asyncio.gather(*jobs)
+        for cid, (kind, caller) in enumerate(plan["calls"]):
+            got = out.get(cid)
+            if got is None or got[0] == "pending":
+                r.bad("C20:caller-left-waiting-after-owner-stopped", f"{kind} from {caller}: the owner's loop is closed and the caller's future never completed; plan {plan}")
+                return 0
+            if got[0] not in ("cancelled", "CancelledError", "Boom", "result"):
+                r.bad("C20:unexpected-outcome-after-owner-stopped", f"{kind} from {caller}: {got}")
+                return 0
+        return len(plan["calls"])
+    finally:
+        gate["stop"] = True
+        second.force_stop()
+        await asyncio.sleep(0)
+
+
 def check(plan) -> Result:
     r = Result(classes=["state:" + plan["state"]])
     warnings.simplefilter("ignore")
     t0 = time.monotonic()
 
     async def main():
+        if plan["state"] == "stop-inflight":
+            return await asyncio.wait_for(run_stop_script(plan, r), 25)
         return await asyncio.wait_for(run_script(plan, r), 20)
 
     try:
@@ -410,7 +523,7 @@ def check(plan) -> Result:
         r.bad("C20:coroutine-exception-not-relayed:base-exception", f"Fatal({ex.args}) escaped instead of reaching its caller")
         return r
     r.nontrivial = bool(crossed)
-    n = sum(len(b) for b in plan["bursts"])
+    n = sum(len(b) for b in plan.get("bursts", []))
     if n >= 100:
         r.cls("burst>=100")
     return r
@@ -440,7 +553,15 @@ def plans(draw):
     return {"state": state, "bursts": bursts}
 
 
+stop_plans = st.fixed_dictionaries({
+    "state": st.just("stop-inflight"),
+    "calls": st.lists(st.tuples(st.sampled_from(["slow_plain", "slow_clean", "slow_raise", "slow_return"]), st.sampled_from(["main", "main", "second"])).map(list),
+                      min_size=1, max_size=6),
+})
+
+
 def _worker(ctx, n):
+    ctx.search(stop_plans, check, max_examples=max(n // 4, 6), shrink=False)
     ctx.search(plans(), check, max_examples=n, shrink=False)
     if ctx.classes.get("inconclusive-wall-guard", 0) > n // 2:
         raise HarnessError("more than half of the scripts hit the wall-clock guard: inconclusive")
